@@ -587,6 +587,18 @@ class BoolUnx(Exception):
     pass
 
 
+def closure_like(F, e):
+    """a closure expression, or a named function passed where a closure is expected (`.reduce(meet)`), as {params, body}"""
+    e = peel(e)
+    if e.get("k") == "Closure":
+        return e
+    if e.get("k") == "Path" and F is not None:
+        g = F.fns.get(e.get("res") or "")
+        if g and "hir" in g:
+            return {"k": "Closure", "params": g["hir"]["params"], "body": g["hir"]["value"], "sp": g["sp"], "def": g["path"]}
+    return None
+
+
 def local_inits(body):
     """name -> initialiser of every immutable `let name = <expr>;` under body (a named sub-expression)"""
     out, dup = {}, set()
